@@ -3275,7 +3275,7 @@ template <typename TArgs>
 FFSM2_CONSTEXPR(11)
 CoreT<TArgs>::CoreT(CoreT&& other) noexcept
 	: FFSM2_IF_TRANSITION_HISTORY(previousTransition{move(other.previousTransition)},)
-	  context {move(other.context )}
+	  context {forward<Context>(other.context)}
 	, registry{move(other.registry)}
 	, request {move(other.request )}
 	FFSM2_IF_PLANS			   (, planData			 {move(other.planData			)})
